@@ -14,7 +14,7 @@ import (
 )
 
 func TestVfC17UpstreamAuth(t *testing.T) {
-	st := vfkit.Stats("TestVfC17UpstreamAuth", "upstream kinds tls / tls+pipeline / https / h3 / quic, URL host as IP or as a name with dial_addr, server certificate situation {valid, wrong name, unknown CA, expired, not yet valid, self-signed, valid from a CA in the system root store of the process (SSL_CERT_FILE) that is not the configured CA} x options {ca configured or not, insecure_skip_verify}; oracle: the client is answered from that upstream iff verification is disabled or the certificate chains to the configured CA (to the system roots when none is configured) and matches the URL host - otherwise SERVFAIL and the fake server receives no DNS query; non-trivial = any certificate other than the valid one, or verification disabled")
+	st := vfkit.Stats("TestVfC17UpstreamAuth", "upstream kinds tls / tls+pipeline / https / h3 / quic, URL host as IP or as a name with dial_addr, server certificate situation {valid, wrong name, unknown CA, expired, not yet valid, self-signed, valid from a CA in the system root store of the process (SSL_CERT_FILE) that is not the configured CA} x options {ca configured or not, insecure_skip_verify}; oracle: the client is answered from that upstream iff verification is disabled or the certificate chains to the configured CA (to the system roots when none is configured) and matches the URL host - otherwise SERVFAIL and the fake server receives no DNS query; a sibling upstream of the same configuration either names the same files with the opposite option, or reaches the same server under the same URL host with the CA that really issued its certificate and is used first; non-trivial = any certificate other than the valid one, or verification disabled")
 	defer vfkit.Flush()
 	ca := NewCA("vf c17 ca")
 	otherCA := NewCA("vf c17 other ca")
@@ -71,16 +71,33 @@ func TestVfC17UpstreamAuth(t *testing.T) {
 		cfg := &Config{Servers: StdServers(pip, []string{"udp"}, ""), Upstreams: []UpstreamCfg{uc}, Rules: []Rule{{Forward: "up"}}}
 		// a sibling in the same configuration that names the same files but sets the opposite option: every tls block
 		// stands for itself
-		sibling := rapid.SampledFrom([]string{"none", "before", "after"}).Draw(t, "siblingUpstream")
-		if sibling != "none" {
+		sibling := rapid.SampledFrom([]string{"none", "before", "after", "trusting-first", "trusting-first"}).Draw(t, "siblingUpstream")
+		files := map[string]string{"ca.pem": string(ca.CertPEM), "sys.pem": string(sysCA.CertPEM), "other.pem": string(otherCA.CertPEM)}
+		switch sibling {
+		case "before", "after":
 			sib := UpstreamCfg{Tag: "sib", Addr: addr, DialAddr: uc.DialAddr, Tls: &TlsCfg{InsecureSkipVerify: !insecure, CA: uc.Tls.CA}}
 			if sibling == "before" {
 				cfg.Upstreams = []UpstreamCfg{sib, uc}
 			} else {
 				cfg.Upstreams = []UpstreamCfg{uc, sib}
 			}
+		case "trusting-first":
+			// a sibling that reaches the same server under the same URL host but trusts the CA that really issued the
+			// server's certificate, and completes an exchange before the upstream under test is used: whatever the
+			// sibling's handshake established (sessions, tickets) must not vouch for the server towards this upstream
+			sibCA := "$DIR/ca.pem"
+			if issuer == otherCA {
+				sibCA = "$DIR/other.pem"
+			} else if issuer == sysCA {
+				sibCA = "$DIR/sys.pem"
+			}
+			sib := UpstreamCfg{Tag: "sib", Addr: addr, DialAddr: uc.DialAddr, Tls: &TlsCfg{CA: sibCA}}
+			cfg.Upstreams = []UpstreamCfg{uc, sib}
+			files["sibset.txt"] = "domain:sib.c17.test\n"
+			cfg.DomainSets = []DomainSet{{Tag: "sibset", Files: []string{"$DIR/sibset.txt"}}}
+			cfg.Rules = []Rule{{Domain: "sibset", Forward: "sib"}, {Forward: "up"}}
 		}
-		p, err := StartProxy(cfg.YAML(), map[string]string{"ca.pem": string(ca.CertPEM), "sys.pem": string(sysCA.CertPEM)}, ProxyOpts{Env: []string{"SSL_CERT_FILE=$DIR/sys.pem", "SSL_CERT_DIR=$DIR/no-such-dir"}})
+		p, err := StartProxy(cfg.YAML(), files, ProxyOpts{Env: []string{"SSL_CERT_FILE=$DIR/sys.pem", "SSL_CERT_DIR=$DIR/no-such-dir"}})
 		if err != nil {
 			t.Fatalf("%v", err)
 		}
@@ -91,6 +108,15 @@ func TestVfC17UpstreamAuth(t *testing.T) {
 		a := NewAsker(pip, "")
 		defer a.Close()
 		name := vfkit.Name{[]byte("auth"), []byte("c17"), []byte("test")}
+		sibAnswered := 0
+		if sibling == "trusting-first" {
+			for i := 0; i < 2; i++ { // two exchanges, so that the second may already resume the first one's session
+				wn := vfkit.Name{[]byte("warm" + itoa(i)), []byte("sib"), []byte("c17"), []byte("test")}
+				if w := a.Ask("udp", Query(uint16(3+i), wn, 1, 1, false), 8*time.Second, 0); len(w.Resps) == 1 && w.Resps[0].Msg.Rcode() == 0 {
+					sibAnswered++
+				}
+			}
+		}
 		res := a.Ask("udp", Query(7, name, 1, 1, false), 8*time.Second, 0)
 		if len(res.Resps) == 0 {
 			res = a.Ask("udp", Query(7, name, 1, 1, false), 8*time.Second, 0)
@@ -101,11 +127,17 @@ func TestVfC17UpstreamAuth(t *testing.T) {
 		r := res.Resps[0].Msg
 		// the configured CA replaces the system roots; without one the system roots decide
 		shouldTrust := insecure || (situation == "valid" && caConfigured) || (situation == "system-ca" && !caConfigured)
-		desc := fmt.Sprintf("upstream %s, certificate %s, ca configured %v, insecure_skip_verify %v (sibling upstream with the opposite option: %s)", addr, situation, caConfigured, insecure, sibling)
+		desc := fmt.Sprintf("upstream %s, certificate %s, ca configured %v, insecure_skip_verify %v (sibling upstream: %s)", addr, situation, caConfigured, insecure, sibling)
 		dnsQueries := 0
 		for _, q := range up.Queries() {
-			if q.Msg.Err == nil && len(q.Msg.Q) == 1 {
+			if q.Msg.Err == nil && len(q.Msg.Q) == 1 && string(q.Msg.Q[0].Name[0]) == "auth" {
 				dnsQueries++
+			}
+		}
+		if sibling == "trusting-first" {
+			desc += fmt.Sprintf("; the sibling had %d exchanges answered before", sibAnswered)
+			if sibAnswered > 0 {
+				st.Class("trusting-sibling-warmed-up", 1)
 			}
 		}
 		if shouldTrust {
